@@ -134,6 +134,12 @@ def configs(tier):
     out.append({"ref": "A", "gt": None, "history": [["init", ["b"]], ["add", "b", 7, 7.5, "y"], ["init", ["a"]]],
                 "bound": 3 if tier == "quick" else 4, "nz": 5})
     out.append({"ref": "A", "gt": ["b"], "history": [["custom", "K1"]], "bound": None, "nz": 3})
+    # ground truth given as an iterable with a repeated name
+    out.append({"ref": "B", "gt": ["a", "b", "a"], "bound": 3 if tier == "quick" else 5, "nz": 5})
+    out.append({"ref": "A", "gt": ["b", "b"], "bound": None, "nz": 3})
+    # a draw, then the reference grows, then re-initialisation: the judged draw follows the NEW reference
+    out.append({"ref": "A", "gt": ["b"], "history": [["init", None], ["sample"], ["add", "b", 20, 26, "y"]],
+                "bound": 2 if tier == "quick" else 3, "nz": 3})
     out.append({"custom": "K1", "history": [["initref", "A", None]], "bound": None, "nz": 2, "ncount": 3})
     if tier == "thorough":
         out.append({"ref": "B", "gt": ["a", "c"], "bound": 5, "nz": 5, "boundary": True})
@@ -156,7 +162,7 @@ def cfg_gt(cfg):
     if "custom" in cfg:
         return sorted(CUSTOM[cfg["custom"]]["annotators"])
     anns = sorted(a for a, _ in REFS[cfg["ref"]]["annotators"])
-    return sorted(cfg["gt"]) if cfg.get("gt") else anns
+    return sorted(set(cfg["gt"])) if cfg.get("gt") else anns  # an iterable with a repeated name names each annotator once
 
 
 def laws(cfg):
@@ -184,21 +190,25 @@ def make_fn_factory(cfg):
         from pyannote.core import Segment
         s = pa.StatisticalContinuumSampler()
         c = build_continuum(REFS[cfg["ref"]]) if "ref" in cfg else None
-        for step in cfg.get("history", []):
-            if step[0] == "init":
-                s.init_sampling(c, step[1])
-            elif step[0] == "add":
-                c.add(step[1], Segment(step[2], step[3]), step[4])
-            elif step[0] == "custom":
-                s.init_sampling_custom(**CUSTOM[step[1]])
-            elif step[0] == "initref":
-                s.init_sampling(build_continuum(REFS[step[1]]), step[2])
-        if "custom" in cfg:
-            s.init_sampling_custom(**CUSTOM[cfg["custom"]])
-        else:
-            s.init_sampling(c, cfg.get("gt"))
 
         def fn():
+            # the history runs under the RNG seam too (a "sample" step consumes answers)
+            for step in cfg.get("history", []):
+                if step[0] == "init":
+                    s.init_sampling(c, step[1])
+                elif step[0] == "sample":
+                    s.sample_from_continuum
+                elif step[0] == "add":
+                    c.add(step[1], Segment(step[2], step[3]), step[4])
+                elif step[0] == "custom":
+                    s.init_sampling_custom(**CUSTOM[step[1]])
+                elif step[0] == "initref":
+                    s.init_sampling(build_continuum(REFS[step[1]]), step[2])
+            e1.mark("judged")
+            if "custom" in cfg:
+                s.init_sampling_custom(**CUSTOM[cfg["custom"]])
+            else:
+                s.init_sampling(c, cfg.get("gt"))
             return continuum_to_spec(s.sample_from_continuum)
         return fn
     return make_fn
@@ -227,6 +237,11 @@ def judge_factory(cfg):
     def judge(val, exc, log):
         if exc is not None:
             return [(f"sampler raised: {exc}", None)]
+        for k in range(len(log) - 1, -1, -1):
+            if log[k]["fn"] == "mark" and log[k]["event"] == "judged":
+                log = log[k + 1:]  # only the requests of the draw that is judged
+                break
+        log = [e for e in log if e["fn"] != "mark"]
         probs = []
         anns = val["annotators"]
         names = [a for a, _ in anns]
